@@ -36,6 +36,11 @@ pub struct Case {
     /// base of the logarithm of the count -> frequency -> weight -> score route (`to_scoring_with_base`)
     #[serde(default = "base_two")]
     pub base: Fl,
+    /// (number of sequences, seed): the count matrix is not built from `counts` with `CountMatrix::new` but from
+    /// that many sequences of `counts.len()` symbols through `CountMatrix::from_sequences` - the route on which the
+    /// sequence count is independent of the cells (an alignment of k EMPTY sequences has no row and count k)
+    #[serde(default)]
+    pub from_seqs: Option<(u8, u64)>,
 }
 
 fn base_two() -> Fl {
@@ -144,7 +149,7 @@ impl Sub for RevComp {
         "revcomp"
     }
     fn rule(&self) -> &'static str {
-        "DNA count matrix (width 0..30, any content incl. wildcard counts) x strand-symmetric pseudocounts and background x arbitrary scoring matrix (finite / -inf cells, finite wildcard column) x DNA sequence (L 0..300); (i) rc(rc(X)) == X exactly and rc(X) == the mirrored model for count, frequency, weight and scoring matrices; (ii) rc commutes with to_freq / to_weight / to_scoring (tol 1e-5), and for the scores in a logarithm base from {2, 10, e, 3.7, 1.5..20}: rc(rc(s)) == s, WeightMatrix::from(rc(s)) == rc(WeightMatrix::from(s)) cell by cell, rc(s).information_content() == s.information_content() (1e-4 of the summed magnitudes), and rc(s) == the scores of the mirrored weights as whole objects wherever their cells agree bit for bit; (iii) min_score / max_score of rc(pssm) equal those of pssm; (iv) score_rc[L-M-i] on rc(seq) == score[i] on seq within the summation bound, through the generic scorer and the dispatcher forced to an arm; (v) in half of the cases the forward object is first discretised / scanned / given a score distribution, and rc(pssm).to_discrete(), Scanner hits and Scanner::max over rc(pssm) must equal those of an equal, freshly built matrix; non-trivial = M >= 2 and rc(X) != X"
+        "DNA count matrix (width 0..30, any content incl. wildcard counts; one in four built from 1..40 sequences through from_sequences, where the sequence count does not follow from the cells - down to an alignment of empty sequences) x strand-symmetric pseudocounts and background x arbitrary scoring matrix (finite / -inf cells, finite wildcard column) x DNA sequence (L 0..300); (i) rc(rc(X)) == X exactly and rc(X) == the mirrored model for count, frequency, weight and scoring matrices; (ii) rc commutes with to_freq / to_weight / to_scoring (tol 1e-5), and for the scores in a logarithm base from {2, 10, e, 3.7, 1.5..20}: rc(rc(s)) == s, WeightMatrix::from(rc(s)) == rc(WeightMatrix::from(s)) cell by cell, rc(s).information_content() == s.information_content() (1e-4 of the summed magnitudes), and rc(s) == the scores of the mirrored weights as whole objects wherever their cells agree bit for bit; (iii) min_score / max_score of rc(pssm) equal those of pssm; (iv) score_rc[L-M-i] on rc(seq) == score[i] on seq within the summation bound, through the generic scorer and the dispatcher forced to an arm; (v) in half of the cases the forward object is first discretised / scanned / given a score distribution, and rc(pssm).to_discrete(), Scanner hits and Scanner::max over rc(pssm) must equal those of an equal, freshly built matrix; non-trivial = M >= 2 and rc(X) != X"
     }
     fn cases(&self, tier: Tier) -> u64 {
         tier.pick(60_000, 1_500_000)
@@ -159,8 +164,9 @@ impl Sub for RevComp {
             arm_strategy(),
             any::<bool>(),
             prop_oneof![2 => Just(2.0f32), 2 => Just(10.0f32), 1 => Just(std::f32::consts::E), 1 => Just(3.7f32), 1 => 1.5f32..20.0],
+            prop_oneof![3 => Just(None), 1 => (1u8..=40, any::<u64>()).prop_map(Some)],
         )
-            .prop_map(|(counts, p, bg, mat, seq, arm, used_before, base)| Case { counts, pseudo: (Fl(p.0), Fl(p.1), Fl(p.2)), bg, mat, seq, arm, used_before, base: Fl(base) })
+            .prop_map(|(counts, p, bg, mat, seq, arm, used_before, base, from_seqs)| Case { counts, pseudo: (Fl(p.0), Fl(p.1), Fl(p.2)), bg, mat, seq, arm, used_before, base: Fl(base), from_seqs })
             .boxed()
     }
     fn check(&self, case: &Case, _cx: &Cx) -> Verdict {
@@ -172,7 +178,25 @@ impl Sub for RevComp {
         for (i, r) in case.counts.iter().enumerate() {
             dm[i].copy_from_slice(r);
         }
-        let cm = CountMatrix::<Dna>::new(dm).unwrap();
+        let mut cm = CountMatrix::<Dna>::new(dm).unwrap();
+        let mut owned_counts = case.counts.clone();
+        if let Some((n, seed)) = case.from_seqs {
+            let mut st = seed;
+            let seqs: Vec<lightmotif::seq::EncodedSequence<Dna>> = (0..n.max(1))
+                .map(|_| {
+                    let idx: Vec<u8> = (0..m).map(|_| { st = splitmix64(st); ((st >> 24) % 5) as u8 }).collect();
+                    lightmotif::seq::EncodedSequence::new(syms::<Dna>(&idx))
+                })
+                .collect();
+            cm = CountMatrix::<Dna>::from_sequences(seqs.iter()).expect("equal lengths");
+            owned_counts = (0..m).map(|i| cm.matrix()[i].to_vec()).collect();
+            info.class("counts-from-sequences");
+            info.class_if(m == 0, "alignment-of-empty-sequences");
+            if cm.sequence_count() != n.max(1) as usize {
+                return Verdict::Fail(Failure::new("count:sequence-count", format!("from_sequences of {} sequences reports {}", n.max(1), cm.sequence_count())));
+            }
+        }
+        let case = &Case { counts: owned_counts, ..case.clone() };
         let rc = cm.reverse_complement();
         if rc.reverse_complement() != cm {
             return Verdict::Fail(Failure::new("count:involution", "rc(rc(counts)) != counts".to_string()));
